@@ -40,11 +40,27 @@ def check_project(res, project, out, ptable, rng, stage="P", fmt="json", prop="C
         _PROP[0] = "C01"
 
 
+def has_int_beyond_i64(obj):
+    if isinstance(obj, bool):
+        return False
+    if isinstance(obj, int):
+        return obj > 2**63 - 1
+    if isinstance(obj, dict):
+        return any(has_int_beyond_i64(v) for v in obj.values())
+    if isinstance(obj, (list, tuple)):
+        return any(has_int_beyond_i64(v) for v in obj)
+    return False
+
+
 def _check_project(res, project, out, ptable, rng, stage, fmt, resolver, only_paths, classify):
     """Compares every key of every locale. Returns number of comparisons."""
     cfg = project["cfg"]
     locales = gen.effective_locales(cfg)
     default = locales[0]
+    if out["outcome"] != "ok" and fmt == "json5" and "error parsing integer" in (out.get("err") or "") and has_int_beyond_i64(project):
+        # the json5 crate reads every integer as i64: an integer above i64::MAX cannot be written in that format at all
+        res.count("json5-integer-above-i64-max-not-representable")
+        return 0
     if out["outcome"] != "ok":
         res.ev()
         res.violation(signature_for("valid-project-rejected", detail=out.get("err_kind", out["outcome"])),
@@ -254,11 +270,15 @@ def run(tier, seed, replay=None):
     cfg = cfg_for(tier, rng)
     projs = [projects.gen_valid_project(rng, cfg) for _ in range(n)]
     ptable = workload.plural_table_for(projs)
-    for fmt, variant in (("json", "json"),):
-        dirs, _ = workload.materialise(projs, "c01-" + fmt, fmt=fmt, seed=seed)
+    # the same abstract projects written in the two other file formats (their own quoting / escaping / number syntax)
+    share = {"json": n, "yaml": n // 4, "json5": n // 4}
+    for fmt, variant in (("json", "json"), ("yaml", "yaml"), ("json5", "json5")):
+        sub = projs[:share[fmt]] if fmt == "json" else projs[-share[fmt]:]
+        dirs, _ = workload.materialise(sub, "c01-" + fmt, fmt=fmt, seed=seed)
         outs = workload.run_projects(dirs, variant)
-        for p, o in zip(projs, outs):
+        for p, o in zip(sub, outs):
             check_project(res, p, o, ptable, rng, fmt=fmt)
+        res.extra.setdefault("projects_by_format", {})[fmt] = len(sub)
     res.extra["projects"] = n
     run_e2e(res, tier, seed, "c01", 3 if tier == "quick" else 48, e2e_cfg(), fmts=("json", "json", "yaml", "json5"))
     res.assumptions += ["reference model vlib/model.py", "ICU4X compiled data as the CLDR plural oracle",
